@@ -34,6 +34,7 @@ inductive FnId where
   | pqHeapify | pqBubbleUp | pqUpHeapify | pqHeapBuild
   | dqHeapify | dqHeapifyMin | dqHeapifyMax | dqBubbleUp | dqBubbleUpMin | dqBubbleUpMax
   | dqUpHeapify | dqHeapBuild | dqFindMax
+  | dqFindMin | pqPop | pqRemove | dqPopMin | dqPopMax | dqRemove
   deriving DecidableEq, Repr
 
 /-- `usize`-valued expressions: pure except for faults -/
@@ -131,6 +132,16 @@ inductive Stmt where
   | retSomeN (e : NExpr)
   /-- `None` as the function's result -/
   | retNone
+  /-- `let v = f(args);` for a translated `f` returning an `Option<(I, P)>` (kept in a value register) -/
+  | callV (v : Var) (f : FnId) (nargs : List NExpr)
+  /-- the value register `v` as the function's result -/
+  | retV (v : Var)
+  /-- `None : Option<(I, P)>` as the function's result -/
+  | retNoneE
+  /-- `f(args).and_then(|v| tS)` for a translated `f` returning `Option<Position>`; `tN` is what `None` becomes -/
+  | optCallN (v : Var) (f : FnId) (nargs : List NExpr) (tS tN : Stmt)
+  /-- `self.store.remove(key).map(|(item, priority, pos)| { body; (item, priority) })` as the function's result -/
+  | mapRemoved (key vpos : Var) (body : Stmt)
   deriving Repr
 
 /-- a translated function: its `usize` parameters, its priority parameters, its body -/
@@ -158,11 +169,12 @@ inductive Flow (P : Type) where
   | brk
   | ret (v : Val P)
 
-/-- interpreter state: the store and the two register files -/
+/-- interpreter state: the store and the register files (`usize`, `&P`, returned values) -/
 structure St (P : Type) where
   s : Store P
   n : Var → Nat
   p : Var → Option P
+  v : Var → Option (Val P) := fun _ => none
 
 @[inline] def upd {α : Type} (f : Var → α) (v : Var) (x : α) : Var → α := fun w => if w = v then x else f w
 
@@ -172,6 +184,7 @@ theorem upd_other {α : Type} (f : Var → α) (v w : Var) (x : α) (h : w ≠ v
 @[inline] def St.setN (st : St P) (v : Var) (x : Nat) : St P := { st with n := upd st.n v x }
 @[inline] def St.setP (st : St P) (v : Var) (x : P) : St P := { st with p := upd st.p v (some x) }
 @[inline] def St.setS (st : St P) (s : Store P) : St P := { st with s := s }
+@[inline] def St.setV (st : St P) (v : Var) (x : Val P) : St P := { st with v := upd st.v v (some x) }
 
 def bindN : List Var → List Nat → (Var → Nat)
   | v :: vs, x :: xs => upd (bindN vs xs) v x
@@ -435,6 +448,32 @@ def execStep (rec : Stmt → St P → R (St P × Flow P)) (callf : CallF P) : St
     let x ← evalN st e
     pure (st, .ret (.optNat (some x)))
   | .retNone, st => pure (st, .ret (.optNat none))
+  | .callV v f nargs, st => do
+    let xs ← evalNs st nargs
+    let (s, r) ← callf f st.s xs []
+    pure ((st.setS s).setV v r, .normal)
+  | .retV v, st =>
+    match st.v v with
+    | some r => pure (st, .ret r)
+    | none => .error stuck
+  | .retNoneE, st => pure (st, .ret (.optEntry none))
+  | .optCallN v f nargs tS tN, st => do
+    let xs ← evalNs st nargs
+    let (s, r) ← callf f st.s xs []
+    match r with
+    | .optNat (some x) => execStep rec callf tS ((st.setS s).setN v x)
+    | .optNat none => execStep rec callf tN (st.setS s)
+    | _ => .error stuck
+  | .mapRemoved key vpos body, st => do
+    let (s, r) ← callf .storeRemove st.s [st.n key] []
+    match r with
+    | .optRemoved none => pure (st.setS s, .ret (.optEntry none))
+    | .optRemoved (some (it, p, pos)) => do
+      let (st, fl) ← execStep rec callf body ((st.setS s).setN vpos pos)
+      match fl with
+      | .normal => pure (st, .ret (.optEntry (some (it, p))))
+      | _ => .error stuck
+    | _ => .error stuck
 
 /-- call of a translated function: fresh registers holding the arguments, run the body, take the
 returned value (falling off the end returns `()`) -/
